@@ -390,8 +390,24 @@ def stored_name_rule(ctx, mpq, pid):
             continue
         if c["m"] == "replace" and len(c.get("args") or []) == 2:
             a0, a1 = hirq.strip(c["args"][0]), hirq.strip(c["args"][1])
-            frm = (a0.get("v") or {}).get("char") or (a0.get("v") or {}).get("str") if a0.get("k") == "lit" else None
-            to = (a1.get("v") or {}).get("char") or (a1.get("v") or {}).get("str") if a1.get("k") == "lit" else None
+            def text_(a):
+                """the character / string a literal or a named constant (module-level or function-local) stands for"""
+                if a.get("k") == "lit":
+                    return (a.get("v") or {}).get("char") or (a.get("v") or {}).get("str")
+                if a.get("k") == "path" and "def" in (a.get("res") or {}) and hirq.PROGRAM_CONSTS:
+                    cv = hirq.PROGRAM_CONSTS.get(a["res"]["def"])
+                    cv = cv.get("v") if isinstance(cv, dict) else cv
+                    if isinstance(cv, int):
+                        return cv
+                    r_ = cv.get("repr") if isinstance(cv, dict) else (cv if isinstance(cv, str) else None)
+                    if isinstance(r_, str) and len(r_) >= 2 and r_[0] in "\"'" and r_[-1] == r_[0]:
+                        try:
+                            import ast
+                            return ast.literal_eval(r_ if r_[0] == '"' else '"' + r_[1:-1].replace('"', '\\"') + '"')
+                        except Exception:
+                            return None
+                return None
+            frm, to = text_(a0), text_(a1)
             if frm in ("/", 47) and to in ("\\", 92):
                 found_replace = True
                 continue
